@@ -5,7 +5,7 @@
     decided by the correspondence + oracle run on every cut point).
     Statement file: theorem statements, [exact], Print Assumptions only. *)
 From Coq Require Import ZArith List String Bool.
-From TV Require Import Layout.Types Model.Monad Model.Message Model.Pump Proofs.Account Proofs.PumpProofs.
+From TV Require Import Layout.Types Model.Monad Model.Message Model.Pump Proofs.LowClosure Proofs.Account Proofs.PumpProofs.
 Import ListNotations.
 Open Scope Z_scope.
 
@@ -27,5 +27,5 @@ Print Assumptions C05_superfluous.
 (** a decoder suspended for lack of input has, in every mode and state, used its input up *)
 Theorem C05_suspended_means_input_used_up :
   forall T abort r s tr s', dec_root T abort r s = (tr, s', More) -> inp s' = [].
-Proof. exact (fun T abort r => LowClosure.L_dec_root _ more_empty_lclosed T abort r). Qed.
+Proof. exact (fun T abort r => L_dec_root _ more_empty_lclosed T abort r). Qed.
 Print Assumptions C05_suspended_means_input_used_up.
